@@ -166,8 +166,8 @@ func serveOne(h http.Handler, rq c08req, inject bool) (o c08obs) {
 		return c08obs{Class: "panic", Raw: pe.val, Site: siteFromStack(pe.stack) + ": " + normKind(pe.val)}
 	}
 	b := rec.Body.Bytes()
-	if len(b) > 300 {
-		b = b[:300]
+	if len(b) > 300 { // keep both ends: the message of an error often ends with its reason
+		b = append(append(append([]byte{}, b[:180]...), []byte(" ~ ")...), b[len(b)-117:]...)
 	}
 	return c08obs{Class: "status", Status: rec.Code, Body: string(b)}
 }
